@@ -459,28 +459,28 @@ func attAdversarial(astype int, r *fw.Rng) [][]byte {
 	}
 	fl := attFile{long, r.Bytes(10)}
 	return [][]byte{
-		{},                                   // connect and close
-		{0x7e},                               // lone delimiter
-		{0x30, 0x31, 0x63, 0x64},             // marker only
-		hdr(f.name, 0, 200, f.content),       // chunk before any announcement
-		cat(e),                               // 0x1212 before anything
-		cat(a, e),                            // 0x1212 before any chunk
-		cat(a, b, e, e),                      // twice
+		{},                             // connect and close
+		{0x7e},                         // lone delimiter
+		{0x30, 0x31, 0x63, 0x64},       // marker only
+		hdr(f.name, 0, 200, f.content), // chunk before any announcement
+		cat(e),                         // 0x1212 before anything
+		cat(a, e),                      // 0x1212 before any chunk
+		cat(a, b, e, e),                // twice
 		cat(a, b, hdr(f.name, 0, 0xffffffff, f.content)), // impossible length
 		cat(a, b, hdr(f.name, 0xffffffff, 200, f.content), e),
-		cat(a, b, hdr(f.name, 0, 0, nil), e),           // empty chunk
+		cat(a, b, hdr(f.name, 0, 0, nil), e),                      // empty chunk
 		cat(a, b, hdr([]byte("other"), 0, 10, f.content[:10]), e), // unknown file
-		cat(a, b, hdr(f.name, 100, 200, f.content), e), // beyond the announced size
+		cat(a, b, hdr(f.name, 100, 200, f.content), e),            // beyond the announced size
 		cat(a, b, hdr(f.name, 0, 200, f.content), hdr(f.name, 0, 200, f.content), hdr(f.name, 0, 100, f.content[:100]), e),
 		cat(fr(0x1210, 1, att1210(astype, []attFile{fl}, "L", r)), fr(0x1211, 2, att1211(fl, 0)), fr(0x1212, 3, att1211(fl, 0))),
 		cat(fr(0x1210, 1, nil)), cat(fr(0x1210, 1, r.Bytes(20))), cat(fr(0x1211, 1, nil)), cat(fr(0x1212, 1, []byte{0xff})),
-		cat(fr(0x1210, 1, att1210(astype, nil, "Z", r))),                       // no files
+		cat(fr(0x1210, 1, att1210(astype, nil, "Z", r))),                                         // no files
 		cat(fr(0x0002, 1, nil)), cat(fr(0x0200, 1, r.Bytes(28))), cat(fr(0x8001, 1, r.Bytes(5))), // foreign ids
 		cat(a, a, b, hdr(f.name, 0, 200, f.content), e), // announced twice
 		cat(a, b, hdr(f.name, 0, 200, f.content), a, e), // re-announced after completion
 		cat(a, b, hdr(f.name, 0, 100, f.content[:100])), // ends mid-file
 		cat(a, b, hdr(f.name, 0, 200, f.content)[:40]),  // ends mid-header
-		cat(a[:len(a)/2]),                               // ends mid-frame
+		cat(a[:len(a)/2]), // ends mid-frame
 		cat(hdr(nil, 0, 0, nil)),
 		cat(a, b, []byte{0x30, 0x31, 0x63, 0x64, 0xff}), // HLJ: name length 255, nothing more
 	}
